@@ -55,5 +55,5 @@ def rule_module_state(ctx):
         writer, node, how = cell.writers[0]
         ctx.res.fail("X-STATE", what, "%s.%s:X-STATE:%s" % (cell.module.name.replace("cutplace.", ""), cell.name, cell.kind),
                      "%s:%d (%s, written in %s)" % (cell.module.relpath, node.lineno, cell.name, writer.qualname.replace("cutplace.", "")),
-                     "module-level %s is run-time state (%s): %s" % (cell.name, cell.kind, cell.reason),
+                     "%s %s is run-time state (%s): %s" % ("attribute" if "." in cell.name else "module-level", cell.name, cell.kind, cell.reason),
                      {"writers": sorted({f.qualname for f, _, _ in cell.writers}), "readers": sorted({f.qualname for f, _ in cell.readers})})
